@@ -20,7 +20,7 @@ def filler(g, mode, slot):
         n = 2 * r.randrange(1, 33)
         if r.random() < 0.12:
             # gaps around one and two 4 KiB blocks (scratch buffers, read-ahead sizes)
-            n = r.choice([4094, 4096, 4098, 8190, 8192, 8194, 12290])
+            n = r.choice([2050, 3070, 3074, 3500, 4000, 4094, 4096, 4098, 6000, 8190, 8192, 8194, 12290])
         kind = r.randrange(0, 3)
         if kind == 0:
             return bytes(n)
@@ -47,6 +47,9 @@ def generate(out_dir, seed, max_n):
                     if with_m and not feats:
                         break
                 recs.append(m)
+            if n >= 3 and ti % 2 == 0:
+                # a null-shape record in the middle of the index (content: nothing but its type word)
+                recs[1] = dict(type=0, parts=[])
             for perm in itertools.permutations(range(n)):
                 for mode in ('none', 'all', 'random'):
                     g = Gen('%d/c14f/%d/%d/%s/%s' % (seed, t, n, perm, mode))
@@ -99,7 +102,7 @@ def generate(out_dir, seed, max_n):
             count += 1
     # layouts with MANY records (amounts straddling powers of two): point records in reversed and
     # in interleaved physical order, with and without filler
-    for n in ([1025, 4097] if max_n <= 4 else [1025, 4097, 8193, 16385]):
+    for n in ([1025, 4097, 8193] if max_n <= 4 else [1025, 4097, 8193, 16385, 65537]):
         for t in (1, 11):
             g0 = Gen('%d/c14big/%d/%d' % (seed, t, n))
             recs = []
